@@ -418,3 +418,133 @@ def ref_cases():
     out.append((lst(lst(d(1), ("i", 200)), ("r", 1)), Slice(BYTES)))
     out.append((lst(lst(s("12"), ("i", 200)), ("r", 1), ("r", 2)), Slice(IFACE)))
     return out
+
+
+# ---------------------------------------------------------------------------------------- random structured cases
+
+STRUCT_POOL = ["Inner", "One", "OneS", "Tagged", "Node2", "Scalars", "Strs"]
+KEY_TYPES = [T("string"), T("int"), T("int8"), T("uint16"), T("float64"), T("bool"), IFACE, T("uint64")]
+
+
+class RandGen:
+    """Random destination types and wire trees shaped by them (mostly matching, sometimes not).  Every object
+    defines its own class, so class indices are the order of appearance; no back-references."""
+
+    def __init__(self, rng, structs):
+        self.rng = rng
+        self.structs = structs
+        self.ncls = 0
+
+    def rtype(self, depth):
+        r = self.rng
+        x = r.random()
+        if depth <= 0 or x < 0.45:
+            return r.choice(SCALAR_TYPES)
+        if x < 0.55:
+            return Ptr(self.rtype(depth - 1))
+        if x < 0.70:
+            return Slice(self.rtype(depth - 1))
+        if x < 0.76:
+            return Array(r.randint(0, 3), self.rtype(depth - 1))
+        if x < 0.88:
+            return Map(r.choice(KEY_TYPES), self.rtype(depth - 1))
+        if x < 0.97:
+            return Reg(r.choice(STRUCT_POOL))
+        return LIST
+
+    def scalar(self, t):
+        r = self.rng
+        k = t["k"]
+        ints = [0, 1, 7, 9, 10, -1, 127, 128, -128, 255, 256, 65535, 65536, -32769, 2 ** 31 - 1, -2 ** 31]
+        longs = ints + [2 ** 31, 2 ** 32, 2 ** 53 + 1, 2 ** 63 - 1, 2 ** 63, -2 ** 63, 2 ** 64 - 1, 2 ** 64, 10 ** 30]
+        if k in INTS or k in ("bigint", "bigrat"):
+            return r.choice([("dig", r.randint(0, 9)), ("i", r.choice(ints)), ("l", r.choice(longs)), ("d", S(r.choice(["1", "2.0", "1.5", "-3", "1e3"]))),
+                             ("s", S(str(r.choice(longs)))), ("u", S(str(r.randint(0, 9)))), ("t",), ("n",)])
+        if k in ("float32", "float64", "complex64", "complex128", "bigfloat"):
+            return r.choice([("d", S(r.choice(["0", "-0", "1.5", "0.1", "1e10", "3.4028235e38", "1e-45", "2.5e-320", "1e308"]))),
+                             ("dig", r.randint(0, 9)), ("i", r.choice(ints)), ("l", r.choice(longs)), ("N",), ("I", r.random() < 0.5),
+                             ("s", S(r.choice(["1.5", "1e3", "x", "-2"]))), ("n",)])
+        if k == "bool":
+            return r.choice([("t",), ("f",), ("n",), ("dig", r.randint(0, 2)), ("s", S(r.choice(["true", "false", "1", "x"]))), ("i", r.choice(ints))])
+        if k == "string":
+            return r.choice([("s", S(r.choice(["hello", "ab", "é中😀", "12", "a b c"]))), ("u", S(r.choice(["a", "é", "中"]))), ("e",), ("n",),
+                             ("i", r.choice(ints)), ("b", b"raw"), ("g", GUID), ("dig", 3), ("d", b"1.5"), ("t",)])
+        if k == "slice":      # []byte
+            return r.choice([("b", S(r.choice(["", "ab", "\x00\xff"]))), ("e",), ("n",), ("s", b"str"), ("u", b"c"), ("a", [("dig", 1), ("i", 255)]), ("g", GUID)])
+        if k == "time":
+            return r.choice([("D", 2020, r.randint(1, 12), r.randint(1, 28), r.random() < 0.5), ("DT", 1999, 12, 31, 23, 59, 59, [r.randint(0, 999)], True),
+                             ("T", r.randint(0, 23), 0, 1, [], False), ("n",), ("i", 5), ("s", b"2020-01-02 03:04:05")])
+        if k == "uuid":
+            return r.choice([("g", GUID), ("s", GUID), ("b", bytes(range(16))), ("e",), ("n",), ("i", 1)])
+        if k == "iface":
+            return self.wire_for(self.rtype(1), 1)
+        return ("n",)
+
+    def wrong(self):
+        return self.rng.choice([("t",), ("N",), ("s", b"zz"), ("a", []), ("m", []), ("i", 77), ("b", b"x"), ("g", GUID), ("D", 2001, 2, 3, True), ("e",)])
+
+    def wire_for(self, t, depth):
+        r = self.rng
+        if r.random() < 0.06:
+            return self.wrong()
+        k = t["k"]
+        if k == "ptr":
+            if t["e"]["k"] == "list":
+                return r.choice([("n",), ("a", [self.scalar(IFACE) for _ in range(r.randint(0, 3))])])
+            return ("n",) if r.random() < 0.15 else self.wire_for(t["e"], depth)
+        if k == "slice" and t["e"]["k"] != "uint8":
+            if r.random() < 0.1:
+                return ("n",)
+            return ("a", [self.wire_for(t["e"], depth - 1) for _ in range(r.randint(0, 3))])
+        if k == "array":
+            n = t["n"] if r.random() < 0.7 else r.randint(0, 4)
+            return ("a", [self.wire_for(t["e"], depth - 1) for _ in range(n)])
+        if k == "map":
+            x = r.random()
+            if x < 0.1:
+                return ("n",)
+            if x < 0.2:
+                return ("a", [self.wire_for(t["e"], depth - 1) for _ in range(r.randint(0, 3))])
+            kvs, seen = [], set()
+            for _ in range(r.randint(0, 3)):
+                kw = self.scalar(t["key"])
+                if kw[0] in ("a", "m", "c", "o") or repr(kw) in seen:
+                    continue
+                seen.add(repr(kw))
+                kvs += [kw, self.wire_for(t["e"], depth - 1)]
+            return ("m", kvs)
+        if k == "reg" and t["name"] in self.structs:
+            fs = list(self.structs[t["name"]] or [])
+            r.shuffle(fs)
+            if fs and r.random() < 0.3:
+                fs = fs[:-1]
+            names = [f["alias"] for f in fs]
+            as_map = r.random() < 0.15
+            idx = None
+            if not as_map:
+                idx = self.ncls            # the class definition comes first in the stream: number it before the fields
+                self.ncls += 1
+            vals = [self.wire_for(f["t"], depth - 1) for f in fs]
+            if r.random() < 0.25:
+                pos = r.randint(0, len(names))
+                names.insert(pos, "extra%d" % r.randint(0, 9))
+                vals.insert(pos, r.choice([("dig", 1), ("s", b"skipped"), ("a", [("s", b"in"), ("n",)])]))
+            if as_map:
+                kvs = []
+                for n_, v_ in zip(names, vals):
+                    kvs += [("s", S(n_)) if len(n_) != 1 else ("u", S(n_)), v_]
+                return ("m", kvs)
+            return ("c", S(r.choice([t["name"], t["name"], "Other"])), [S(n_) for n_ in names], ("o", idx, vals))
+        return self.scalar(t)
+
+    def case(self, depth=3):
+        self.ncls = 0
+        t = self.rtype(depth)
+        # class indices are assigned in stream order: definitions nested inside an object's fields come
+        # after the object's own definition, which wire_for respects by numbering before recursing
+        w = self._build(t, depth)
+        return w, t
+
+    def _build(self, t, depth):
+        # number classes in stream order: pre-order
+        return self.wire_for(t, depth)
